@@ -160,6 +160,16 @@ theorem addControl_cases (s : Reg) (n : Name) (ns ls : List Name) :
     · exact Or.inl rfl
     · exact Or.inr ⟨_, rfl⟩
 
+theorem updateControl_cases (s : Reg) (n : Name) (ns ls : List Name) :
+    updateControl s n ns ls = (s, .error) ∨
+    (∃ us, updateControl s n ns ls = ({ s with controls := AL.set s.controls n us }, .ok)) := by
+  unfold updateControl
+  split
+  · exact Or.inl rfl
+  · split
+    · exact Or.inr ⟨_, rfl⟩
+    · exact Or.inl rfl
+
 /-! ### remove_node / remove_link -/
 
 /-- `NodeRegistry.__delitem__` of the repaired code after the in-use test, as straight-line code -/
